@@ -127,6 +127,27 @@ class RxWorld:
             st.pc.append(z3.Implies(guard, f))
         return res
 
+    def match_facts(self, pid, info, subj, pos):
+        """What holds of a match of pattern pid on subj that starts at pos (however it was found): the facts derived from the pattern.
+        With look-arounds dropped the group languages are supersets, so the facts still hold of every real match."""
+        facts = [z3.And(pos >= 0, pos <= z3.Length(subj))]
+        e = self.end(z3.IntVal(pid), subj, pos)
+        facts.append(z3.And(e >= pos, e <= z3.Length(subj)))
+        if not info.nullable():
+            facts.append(e > pos)
+        facts.append(z3.InRe(z3.SubString(subj, pos, e - pos), info.lang))
+        for g, lang_g in info.groups.items():
+            gt = self.grp(z3.IntVal(pid), z3.IntVal(g), subj, pos)
+            ht = self.has(z3.IntVal(pid), z3.IntVal(g), subj, pos)
+            facts.append(z3.Implies(ht, z3.InRe(gt, lang_g)))
+            if g not in info.optional:
+                facts.append(ht)
+        for grp in getattr(info, 'exclusive', []):
+            hs = [self.has(z3.IntVal(pid), z3.IntVal(g), subj, pos) for g in grp]
+            facts.append(z3.Or(*hs))
+            facts.extend(z3.Not(z3.And(hs[i], hs[j])) for i in range(len(hs)) for j in range(i + 1, len(hs)))
+        return facts
+
     def fresh_match_param(self, eng, name, pattern_qual, st):
         """A parameter that is a match object of a known pattern: fresh subject/position plus the derived match facts."""
         from .replay import resolve
@@ -149,6 +170,8 @@ class RxWorld:
             if g not in info.optional:
                 st.pc.append(ht)
             anyg.append(ht)
+        for f in self.match_facts(pid, info, subj, pos):
+            st.pc.append(f)
         return V(MATCH, MATCH._dt.mk_Match(z3.IntVal(pid), subj, pos))
 
     def group(self, eng, m: V, g, st, node):
